@@ -122,6 +122,8 @@ struct oscore_recipient_ctx_t {
   coap_bin_const_t *recipient_id;
   uint8_t echo_value[8];
   uint8_t initial_state;
+  uint8_t rollback_initial_state;
+  uint8_t rollback_valid; /**< rollback_* hold the state before the last update */
 };
 
 #define OSCORE_ASSOCIATIONS_ADD(r, obj)                                        \
